@@ -82,7 +82,7 @@ pub fn run(args: &Args, rep: &mut Report) {
     let want = |id: &str| only.as_ref().map(|o| o == id).unwrap_or(true);
     mon::install();
     // ---- slice A: library round trips from the C01 space (incl. k = 32, fallback > 0) ----
-    let na = args.get_u64("na", if thorough { 1400 } else { 64 });
+    let na = args.get_u64("na", if thorough { 800 } else { 48 });
     for i in 0..na {
         let id = format!("A{}", i);
         if !args.mine(i) || !want(&id) {
@@ -122,7 +122,7 @@ pub fn run(args: &Args, rep: &mut Report) {
         let _ = std::fs::remove_file(&path);
     }
     // ---- slice B: single-file mode with more contigs than the pack cardinality ----
-    let nb = args.get_u64("nb", if thorough { 300 } else { 24 });
+    let nb = args.get_u64("nb", if thorough { 200 } else { 16 });
     for i in 0..nb {
         let id = format!("B{}", i);
         if !args.mine(i) || !want(&id) {
